@@ -370,9 +370,11 @@ Exec(m, p, s) ==
                   done == s.i = s.n IN
               IF IsUnk(val) THEN OutOfModel(m, "reply")
               ELSE IF IsErr(val) THEN
-                   Redo(IF s.v.k = "arr"
-                        THEN [m EXCEPT !.dims = Store(m, s.v, Default(TypeOfName(s.v.l, s.v.sfx, m.deft))).m.dims]
-                        ELSE m)
+                   (IF s.v.k = "arr"
+                    THEN LET w == Store(m, s.v, Default(TypeOfName(s.v.l, s.v.sfx, m.deft))) IN
+                         \* (a subscript the value model cannot compute -- an inexact number: outside the model)
+                         IF ~w.ok /\ IsUnk(w.v) THEN OutOfModel(m, "reply") ELSE Redo([m EXCEPT !.dims = w.m.dims])
+                    ELSE Redo(m))
               ELSE LET r == Store(m, s.v, val) IN
                    IF ~r.ok THEN (IF IsUnk(r.v) THEN OutOfModel(r.m, "reply") ELSE Redo(r.m))
                    ELSE [r.m EXCEPT !.pc = Adv(p), !.inp = IF done THEN NoCont ELSE @, !.flds = IF done THEN <<>> ELSE @]
